@@ -370,6 +370,7 @@ BATH_KINDS = {
     "SD-UnderdampedBrownian": ("SD", "UnderdampedBrownian", ("reorg", "freq", "gamma"), dict(T=300.0)),
     "SD-Underdamped": ("SD", "Underdamped", ("reorg", "freq", "gamma"), dict(T=300.0)),
     "CF-Underdamped": ("CF", "Underdamped", ("reorg", "freq", "gamma"), dict(T=300.0)),
+    "CF-UnderdampedBrownian": ("CF", "UnderdampedBrownian", ("reorg", "freq", "gamma"), dict(T=300.0)),
     "CF-OverdampedBrownian": ("CF", "OverdampedBrownian", ("reorg",), dict(cortime=100.0, T=300.0, matsubara=1)),
     "CF-OverdampedBrownian-HighTemperature": ("CF", "OverdampedBrownian-HighTemperature", ("reorg",),
                                               dict(cortime=100.0, T=300.0)),
